@@ -46,10 +46,10 @@ type PeerCfg struct {
 	PingAckDelayNs  int64  `json:"ping_ack_delay_ns,omitempty"`
 	SettingsDelayNs int64  `json:"settings_delay_ns,omitempty"`
 	AckDelayNs      int64  `json:"ack_delay_ns,omitempty"`
-	NoPreface       bool   `json:"no_preface,omitempty"`  // hostile: never send the server preface
-	NoAck           bool   `json:"no_ack,omitempty"`      // never acknowledge the client's SETTINGS
-	Unscripted      string `json:"unscripted,omitempty"`  // what to do with streams without x-sim-rpc: "" ignore | refuse
-	CheckRecv       bool   `json:"check_recv,omitempty"`  // verify the pattern of every received message
+	NoPreface       bool   `json:"no_preface,omitempty"` // hostile: never send the server preface
+	NoAck           bool   `json:"no_ack,omitempty"`     // never acknowledge the client's SETTINGS
+	Unscripted      string `json:"unscripted,omitempty"` // what to do with streams without x-sim-rpc: "" ignore | refuse
+	CheckRecv       bool   `json:"check_recv,omitempty"` // verify the pattern of every received message
 	BDPAckDelayNs   int64  `json:"bdp_ack_delay_ns,omitempty"`
 	IllegalWrites   bool   `json:"illegal_writes,omitempty"`
 }
@@ -58,17 +58,17 @@ type PeerCfg struct {
 type SOp struct {
 	// headers | send | trailers | rst | sleep | recv | recv_all | wait_bytes |
 	// grant | end_data | frame | raw | hang
-	Op    string `json:"op"`
-	N     int    `json:"n,omitempty"`
-	Ns    int64  `json:"ns,omitempty"`
+	Op string `json:"op"`
+	N  int    `json:"n,omitempty"`
+	Ns int64  `json:"ns,omitempty"`
 	// sleep: streams after the first FirstK of their connection sleep Ns2 instead
-	FirstK int   `json:"first_k,omitempty"`
-	Ns2    int64 `json:"ns2,omitempty"`
-	Code  int    `json:"code,omitempty"`
-	Msg   string `json:"msg,omitempty"`
-	Split []int  `json:"split,omitempty"` // DATA payload sizes, cycled (empty: as large as allowed)
-	Pad   int    `json:"pad,omitempty"`   // padding bytes on every DATA frame
-	Over  int    `json:"over,omitempty"`  // overrun: exceed the client's stream window by this many bytes (class B)
+	FirstK int    `json:"first_k,omitempty"`
+	Ns2    int64  `json:"ns2,omitempty"`
+	Code   int    `json:"code,omitempty"`
+	Msg    string `json:"msg,omitempty"`
+	Split  []int  `json:"split,omitempty"` // DATA payload sizes, cycled (empty: as large as allowed)
+	Pad    int    `json:"pad,omitempty"`   // padding bytes on every DATA frame
+	Over   int    `json:"over,omitempty"`  // overrun: exceed the client's stream window by this many bytes (class B)
 	// message framing (send): flag byte, lie = delta added to the declared
 	// length, enc = compressor applied to the payload, trunc = stop after this
 	// many bytes of the framed message (0: all)
@@ -122,18 +122,18 @@ type peerStream struct {
 	rstByClient bool
 	sg          grantState
 	// send side (peer -> client)
-	sendUpd   int64 // WINDOW_UPDATE increments received for this stream
-	sent      int64 // flow-controlled bytes queued
-	hdrSent   bool
-	ended     bool
-	rstSent   bool
-	sentMsgs  int
-	overSent  int64 // bytes sent beyond the advertised window on purpose
-	overAt    time.Time
-	scriptEnd bool
-	rawSent   []byte // the message byte stream queued on this stream (framing oracle)
-	respEnc   string // grpc-encoding announced in the response headers
-	scriptIdle bool // the script is in a sleep/hang or finished: it owes the client nothing right now
+	sendUpd    int64 // WINDOW_UPDATE increments received for this stream
+	sent       int64 // flow-controlled bytes queued
+	hdrSent    bool
+	ended      bool
+	rstSent    bool
+	sentMsgs   int
+	overSent   int64 // bytes sent beyond the advertised window on purpose
+	overAt     time.Time
+	scriptEnd  bool
+	rawSent    []byte // the message byte stream queued on this stream (framing oracle)
+	respEnc    string // grpc-encoding announced in the response headers
+	scriptIdle bool   // the script is in a sleep/hang or finished: it owes the client nothing right now
 }
 
 type outItem struct {
@@ -166,18 +166,18 @@ type peerConn struct {
 	hbuf bytes.Buffer
 	cfg  PeerCfg
 
-	q       []outItem
-	delayed delayHeap
+	q        []outItem
+	delayed  delayHeap
 	onesLeft int
 	fenceSeq int
-	dseq    uint64
-	dsig    chan struct{}
-	qsig    chan struct{}
-	done    chan struct{}
-	dead    bool
-	deadAt  time.Time
-	deadWhy string
-	changed chan struct{}
+	dseq     uint64
+	dsig     chan struct{}
+	qsig     chan struct{}
+	done     chan struct{}
+	dead     bool
+	deadAt   time.Time
+	deadWhy  string
+	changed  chan struct{}
 
 	streams   map[uint32]*peerStream
 	order     []uint32
@@ -207,9 +207,9 @@ type peerConn struct {
 	lastPingAt   time.Time
 	rxFrames     int
 	// C04: what the client advertised in total
-	cliConnAdv   int64
-	flowErrs     int
-	cliRst       map[uint32]http2.ErrCode
+	cliConnAdv    int64
+	flowErrs      int
+	cliRst        map[uint32]http2.ErrCode
 	cliGoAwayCode http2.ErrCode
 }
 
@@ -922,6 +922,31 @@ func (pc *peerConn) sendBytes(ps *peerStream, b []byte, op SOp, end bool, force 
 	return true
 }
 
+// sendPadding sends n padding-only DATA frames within the client's windows.
+func (pc *peerConn) sendPadding(ps *peerStream, n, pad int) bool {
+	pad = max(1, min(pad, 255))
+	cost := int64(pad + 1)
+	if cost > pc.cliMFS {
+		return true
+	}
+	for i := 0; i < n; i++ {
+		ok := pc.waitFor(func() bool {
+			return ps.rstByClient || ps.rstSent || pc.sendWin(ps) >= cost
+		})
+		if !ok || ps.rstByClient || ps.rstSent {
+			return false
+		}
+		ps.sent += cost
+		pc.connSent += cost
+		if pc.sendWin(ps) == 0 {
+			pc.w.e.Probe("peer_used_all_credit")
+		}
+		pc.w.e.Probe("padding_only_frame")
+		pc.put(outItem{kind: 'D', sid: ps.id, pad: pad})
+	}
+	return true
+}
+
 // fence sends a PING and waits for its acknowledgement: everything the client
 // had queued before it read the PING (window updates, settings) has then been
 // received by the peer.
@@ -966,16 +991,28 @@ func (pc *peerConn) overrun(ps *peerStream, op SOp) bool {
 	if !pc.sendBytes(ps, body[:r-merge], op, false, false) {
 		return false
 	}
-	// a second fence: the window must not have moved while the first part was sent
-	if !pc.fence(2) {
-		return false
+	// The whole violating part must go out in one go right after the checks:
+	// wait for enough connection window, fence (so that the peer's knowledge of
+	// the windows is current), and re-check that the connection window is still
+	// there (other streams of the peer use it too).
+	need := merge + over + int64((merge+over)/16384+1)
+	connWin := func() int64 { return 65535 + pc.connSendUpd - pc.connSent }
+	ready := false
+	for try := 0; try < 6 && !ready; try++ {
+		if !pc.waitFor(func() bool { return connWin() >= need || ps.rstByClient }) || ps.rstByClient {
+			return false
+		}
+		if !pc.fence(2) {
+			return false
+		}
+		ready = connWin() >= need
 	}
-	// the application must be idle: a pending read lets the client raise the window
-	// (and must stay idle until the excess has long been delivered)
-	if st := pc.w.rpcs[ps.rpc]; st == nil || st.inCall != "" || st.clientDone || time.Until(st.idleUntil) < 2*time.Second {
-		merge = -1
+	// the application must be idle (a pending read lets the client raise the
+	// window) and must stay idle until the excess has long been delivered
+	if st := pc.w.rpcs[ps.rpc]; !ready || st == nil || st.inCall != "" || st.clientDone || time.Until(st.idleUntil) < 2*time.Second {
+		ready = false
 	}
-	if left := pc.cliIWS + ps.sendUpd - ps.sent; left != merge {
+	if left := pc.cliIWS + ps.sendUpd - ps.sent; !ready || left != merge {
 		pc.w.e.Probe("overrun_window_moved")
 		info.overrun = false
 		st := pc.w.rpcs[ps.rpc]
@@ -1015,6 +1052,16 @@ func (pc *peerConn) runScript(ps *peerStream, script []SOp) {
 				e.Logf("peer conn %d stream %d: send aborted at op %d", pc.idx, ps.id, oi)
 				return
 			}
+		case "padding":
+			// N DATA frames that carry nothing but padding (RFC 9113 6.1: legal,
+			// e.g. traffic shaping); each costs Pad+1 bytes of flow control
+			if !ps.hdrSent && !op.NoStd {
+				pc.sendHeaders(ps, SOp{})
+			}
+			if !pc.sendPadding(ps, op.N, op.Pad) {
+				e.Logf("peer conn %d stream %d: padding aborted at op %d", pc.idx, ps.id, oi)
+				return
+			}
 		case "trailers":
 			pc.sendTrailers(ps, op)
 		case "end_data":
@@ -1026,6 +1073,13 @@ func (pc *peerConn) runScript(ps *peerStream, script []SOp) {
 			ps.rstSent = true
 			pc.put(outItem{kind: 'R', sid: ps.id, code: http2.ErrCode(op.Code)})
 			pc.w.noteReturned(ps, -1-op.Code)
+		case "sleep_to_grid":
+			// sleep until the next multiple of Ns (strictly after now) of the run's clock
+			ps.scriptIdle = true
+			now := int64(time.Since(pc.w.t0))
+			if !pc.sleep(time.Duration((now/op.Ns+1)*op.Ns - now)) {
+				return
+			}
 		case "sleep":
 			ps.scriptIdle = true
 			d := op.Ns
@@ -1196,6 +1250,19 @@ func (w *run) doAction(a Action) {
 		}
 		pc.settingsSent++
 		pc.put(outItem{kind: 'S', settings: ss})
+	case "finish_all":
+		// one write burst: (optionally) SETTINGS with a new limit first, then the
+		// trailers of every stream that is still open
+		if a.MCS >= 0 {
+			pc.settingsSent++
+			pc.put(outItem{kind: 'S', settings: []http2.Setting{{ID: http2.SettingMaxConcurrentStreams, Val: uint32(a.MCS)}}})
+			e.Probe("peer_changed_mcs")
+		}
+		for _, id := range pc.order {
+			if ps := pc.streams[id]; ps.haveRPC && !ps.ignored && !ps.closed() {
+				pc.sendTrailers(ps, SOp{})
+			}
+		}
 	case "wupd":
 		cnt := a.Count
 		if cnt <= 0 {
